@@ -2,6 +2,32 @@
 """Regenerates /verif/MANIFEST.json from the table below (run by hand after adding a check)."""
 import json, os, subprocess
 
+# what two rounds of independently seeded changes added to each space (DESIGN.md 9.3); appended to the level text
+EXTENDED = {
+    'C01': 'selects over NUMBER/BINARY/BOOLEAN/LOGICAL members with the full literal alphabet inside typed values; an explicitly redeclared attribute (SELF\\sup.x : T)',
+    'C02': 'every transitively reduced inheritance graph on 4 entities (thorough 5; quick adds multiple inheritance through multiple inheritance on 5); every aggregate kind x UNIQUE x OPTIONAL '
+           'as named type, in-line and nested, read from the descriptors; explicit redeclarations with the derived flag of every instance attribute; names with consecutive underscores',
+    'C03': 'a literal of the wrong kind inside every typed select value; string literals containing ; ) , as wrong-kind values; garbage after $',
+    'C04': 'an undefined name at every bare reference in every expression; an attribute clash with an ancestor 1-3 levels up / a second supertype / a diamond; three-schema USE/REFERENCE '
+           'chains with renames and cycles under every assignment of schema names; select cycles with entity members',
+    'C05': 'every comment body up to length 3 (5) cut off by the end of file and closed, at four places; a repeated instance name in exchange and working-session files under all state pairs',
+    'C06': 'texts of 50 kB - 1 MB in one WHERE/DERIVE/FUNCTION/RULE; the three-schema interface family; unexplained signals are located with gdb',
+    'C07': 'all formal parameter lists of 1-3 parameters x {VAR, value} x 3 types; real literals for 6 mantissas x exponents -40..40',
+    'C08': 'a subtype of two separately constrained hierarchies; three-branch two-level trees; a set that lacks a supertype of a member is judged even when disconnected',
+    'C09': 'every comment body up to length 3 over * / c blank between the token and its delimiter',
+    'C10': 'dependencies and forward table re-queried after every load history; a comment at every token boundary of simple and complex instances; keyword followed by newline/tab',
+    'C11': '12 INVERSE shapes (inverse two levels up, through a second supertype, multiple inheritance on referrer and target side, single+aggregate referrer); histories that load referrers first',
+    'C12': 'exppp without -o (output named after the schema, repeated in one directory); aggregate bounds that are expressions',
+    'C14': '8 id patterns, a different one per file (49 pairs); aggregates of SELECTs and typed select values holding aggregates of references',
+    'C15': 'the unset marker in 8 lexical dresses; the other attribute of a two-attribute entity at every literal alternative; two unset attributes in one instance',
+    'C16': 'every history also with the loads going into the saving session itself; populations with a comment on every instance; optional header entities',
+    'C17': 'names of every length 60-100 (thorough 1-140); order-dependent shapes (select with a renamed enumeration, pure extension schemas) under every assignment of names',
+    'C18': 'inverse/derived attributes in (transitive, second) supertypes; defined-type chains under every permutation of names; all inheritance graphs on 4 entities; keyword-named select members; '
+           'the generator\'s base-class order rule stated exactly',
+    'C19': 'a nested aggregate whose base type is a generalisation of the declared one',
+    'C20': 'a fault in each of three external schema files under every lookup order; bare references to functions with parameters; a wording-to-class reference table for -w/-i',
+}
+
 PENDING = 'check not built yet (work in progress; see DESIGN.md section 3 for the plan)'
 
 CHECKS = {
@@ -237,7 +263,8 @@ def main():
             'evidence_file': '/verif/evidence/%s.json' % pid,
             'replay_cmd_template': '/verif/bin/check %s --replay {path}' % pid,
             'engine': 'E-input/E-hist explorers',
-            'level_claimed': {'category': 'model_checking', 'text': c['text'], 'design_ref': 'DESIGN.md section ' + c['ref']},
+            'level_claimed': {'category': 'model_checking', 'text': c['text'] + ((' Extended after two rounds of independently seeded changes (DESIGN.md 9.3) by: ' + EXTENDED[pid] + '.') if pid in EXTENDED else ''),
+                              'design_ref': 'DESIGN.md section ' + c['ref'] + ' and 9.3'},
             'level_note': c['note'],
             'technique': c['technique'],
         })
